@@ -130,26 +130,11 @@ Proof.
   { intros t0 [u E] X. apply H. subst. apply in_app_iff. auto. }
   destruct t; simpl.
   - destruct s as [|c s]; auto. destruct (c =? b); auto. rewrite IH; auto. intro X. apply H. right. auto.
-  - apply rstar_ext. intros t0 T. apply IH. apply Suf. auto.
-  - apply rstar_nodelim_any; auto. intros t0 T. apply IH. apply Suf. auto.
+  - apply rstar_ext. intros t0 T. apply IH. apply Suf. exact T.
+  - apply rstar_nodelim_any; [exact H|]. intros t0 T. apply IH. apply Suf. exact T.
 Qed.
 
 (* ---------- match() in the flat namespace ---------- *)
-Lemma wmf_star_end : forall p q rest, wmf p q -> (exists p0 c, p = p0 ++ [c] /\ is_wild c = true) -> wmf p (q ++ rest).
-Proof.
-  intros p q rest W. induction W; intros [p0 [c0 [E C0]]].
-  - destruct p0; discriminate.
-  - destruct p0 as [|x p0].
-    + simpl in E. injection E as E1 E2. subst. rewrite C0 in H. discriminate.
-    + simpl in E. injection E as E1 E2. subst. simpl. apply wmf_lit; auto. apply IHW. exists p0, c0. auto.
-  - destruct p0 as [|x p0].
-    + simpl in E. injection E as E1 E2. subst. inversion W; subst.
-      induction rest as [|y rest IHr]; simpl; [apply wmf_wild0; auto; constructor|].
-      apply wmf_wild1; auto.
-    + simpl in E. injection E as E1 E2. subst. apply wmf_wild0; auto. apply IHW. exists p0, c0. auto.
-  - simpl. apply wmf_wild1; auto. apply IHW. exists p0, c0. auto.
-Qed.
-
 Lemma flat_pattern_eq : forall ref pat, ~ In NODELIM (ref ++ pat) -> list_pattern NODELIM ref pat = flat_pattern ref pat.
 Proof. intros ref pat H. unfold list_pattern, flat_pattern. apply flat_canon. auto. Qed.
 
